@@ -22,6 +22,7 @@ def run(ctx):
     E.rule_m3(ctx)
     n1(ctx, ["geometry_tools/representation.py", "geometry_tools/automata/fsa.py"])
     CA.rule_c2(ctx, "Representation")
+    E.rule_m4(ctx)
     u1(ctx, ENTRIES, min_functions=10)
     ctx.r.assume("equality of the returned word set with the automaton's "
                  "language, free-group uniqueness and memo reuse across "
